@@ -74,6 +74,14 @@ class Kind:
             p = os.path.join(DATA, s)
             if os.path.exists(p):
                 out.append((s, open(p, "rb").read()))
+        if self.name == "FLAC" and out:
+            # a FLAC file with an ID3v2 tag in front of the stream marker (foreign tag family; deleteid3 option)
+            frame = b"TIT2" + bytes([0, 0, 0, 9]) + b"\x00\x00" + b"\x03Id3Title"[:9]
+            pad = b"\x00" * 300
+            body = frame + pad
+            n = len(body)
+            tag = b"ID3\x04\x00\x00" + bytes([(n >> 21) & 0x7F, (n >> 14) & 0x7F, (n >> 7) & 0x7F, n & 0x7F]) + body
+            out.append(("id3prefix+" + out[0][0], tag + out[0][1]))
         return out
 
     def walk(self, data):
